@@ -109,6 +109,14 @@ func runRnd(raw json.RawMessage) (interface{}, error) {
 	asked := []int{}
 	restore := route.VerifC04SetRandIntn(func(n int) int {
 		asked = append(asked, n)
+		if in.Sweep {
+			v := 0
+			if n > 0 {
+				v = j % n
+			}
+			j++
+			return v
+		}
 		if n <= 0 || j >= len(in.Rands) {
 			return 0
 		}
@@ -118,10 +126,17 @@ func runRnd(raw json.RawMessage) (interface{}, error) {
 	})
 	defer restore()
 	req := request(in.Src)
-	picks := make([]int, 0, len(in.Rands))
-	for range in.Rands {
+	lookups := len(in.Rands)
+	if in.Sweep {
+		lookups = 1
+	}
+	picks := make([]int, 0, lookups)
+	for l := 0; l < lookups; l++ {
 		tg := t.Lookup(req, "", route.Picker["rnd"], route.Matcher["prefix"], globCache, false)
 		picks = append(picks, targetIndex(r, tg))
+		if in.Sweep && l == 0 && len(asked) > 0 && asked[0] > 1 && asked[0] <= 200000 {
+			lookups = asked[0] // one lookup per value of the range the picker asked for
+		}
 	}
 	out := routeOut(r)
 	out["picks"] = picks
@@ -291,6 +306,10 @@ func init() {
 			text := r.Chance(1, 2)
 			ds, src := genScript(r, text)
 			in := scriptIn{Defs: ds, Text: text, Src: src}
+			if r.Chance(1, 5) {
+				in.Sweep = true
+				return in
+			}
 			k := r.Range(1, 40)
 			for j := 0; j < k; j++ {
 				switch r.Intn(4) {
